@@ -27,7 +27,7 @@ class LocalSim(mosaik_api_v3.Simulator):
         return self.meta
 
     def create(self, num, model, **params):
-        ents = [{"eid": f"E{self.nent + i}", "type": model} for i in range(num)]
+        ents = [{"eid": f"E{self.nent + i}" + (self.ctx.scn.get("eid_suffix") or ""), "type": model} for i in range(num)]
         self.nent += num
         return ents
 
